@@ -21,7 +21,9 @@ RULE = ("pop-on programs built from an abstract model: per caption [ENM] RCL, 1-
         "{single, doubled}; each of the 95+16+64 character codes in three contexts; all "
         "sequences of <=3 (thorough <=5) actions over a 9-action alphabet, single and doubled. "
         "Non-trivial: >= 2 rows, or a non-basic character, or italics, or doubled codes, or >= "
-        "2 captions.")
+        "2 captions. "
+        'The SCCReader object is fresh or has a past (an ok document ending on a generated '
+        'row, a rejected flash cue, a malformed timecode, the same document). ')
 ASSUMPTIONS = [
     "rows are loaded in ascending order with one PAC each; tab offsets directly follow a PAC",
     "whitespace: a transmitted space between two visible characters must survive, no "
